@@ -233,6 +233,22 @@ class C10(Check):
                                   "parameters the shared model currently has",
                                   witness="simulate(1); update_parameter(k, 2k); simulate(2): the first segment's fluxes are reported under the second value")
         self.analysed["model_evaluations_in_Simulation"] = n
+        # the derivative view asks the model for its right-hand side on each segment's own argument table
+        rhs = next((f_ for n_, f_ in methods.items() if n_ == "get_right_hand_side" and not any(norm(d) == "overload" for d in f_.decorator_list)), None)
+        if rhs is not None:
+            q = f"{CLS}.get_right_hand_side"
+            dele = [c for c in ast.walk(rhs) if isinstance(c, ast.Call) and isinstance(c.func, ast.Attribute) and c.func.attr == "get_right_hand_side_time_course"]
+            own = [c for c in ast.walk(rhs) if isinstance(c, ast.Call) and isinstance(c.func, ast.Attribute) and c.func.attr in ("get_stoichiometries", "get_stoichiometries_of_variable")
+                   and "variables" not in {k.arg for k in c.keywords} and len(c.args) < (2 if c.func.attr == "get_stoichiometries_of_variable" else 1)]
+            if dele and all({k.arg for k in c.keywords} >= {"args"} or c.args for c in dele):
+                self.holds("V2", MOD, q, "derivatives-from-the-model", dele[0], "each segment's derivatives are the model's own right-hand side on that segment's argument table")
+            elif own:
+                self.violated("V2", MOD, q, "derivatives-from-the-model", own[0],
+                              f"the derivatives are rebuilt from `{norm(own[0])[:60]}`, i.e. from the coefficients at the model's initial state, instead of asking the model for its right-hand side "
+                              "row by row: a coefficient that depends on the state is frozen",
+                              witness="a reaction with stoichiometry {'x': Derived(fn=twice, args=['y'])}: sim.get_right_hand_side() differs from model.get_right_hand_side at every row but the first")
+            else:
+                self.undecided_ob("V2", MOD, q, "derivatives-from-the-model", rhs, "how the derivative view obtains the derivatives was not recognised")
 
     def v3(self, mod) -> None:
         for name in ("_adjust_data", "get_producers", "get_consumers"):
